@@ -33,7 +33,8 @@ type Part struct {
 	Path   string  // concrete path from the root, e.g. *.Option[1].(*dns.EDNS0_SUBNET)*.Address[]
 	Name   string  // type-level name, e.g. edns0-subnet-address (component of finding keys)
 	Kind   string  // ptr | slice | map
-	Lo, Hi uintptr // [Lo, Hi)
+	Lo, Hi uintptr // [Lo, Hi): the whole store (slices: base .. base+cap*elemsize)
+	HiLen  uintptr // [Lo, HiLen): the part the value lives in (slices: base .. base+len*elemsize)
 	Exact  string  // shallow content, nil and empty slices distinguished
 	Norm   string  // shallow content, nil and empty slices identified
 }
@@ -50,28 +51,39 @@ type Region struct {
 
 // Snap is the observable state of one object.
 type Snap struct {
-	Regions []Region
-	Bk      string // documented bookkeeping, rendered apart
+	Regions []Region // overlapping stores merged (whole capacity)
+	Parts   []Part   // every store as met, depth-first
+	Bk      string   // documented bookkeeping, rendered apart
+	exact   string
+	norm    string
 }
 
 // Exact is the deep snapshot used for "unchanged" comparisons.
 func (s *Snap) Exact() string {
+	if s.exact != "" {
+		return s.exact
+	}
 	var b strings.Builder
 	for i := range s.Regions {
 		b.WriteString(s.Regions[i].Exact)
 		b.WriteByte('\n')
 	}
-	return b.String()
+	s.exact = b.String()
+	return s.exact
 }
 
 // Norm is the value projection used for "copy equals original".
 func (s *Snap) Norm() string {
+	if s.norm != "" {
+		return s.norm
+	}
 	var b strings.Builder
-	for i := range s.Regions {
-		b.WriteString(s.Regions[i].Norm)
+	for i := range s.Parts {
+		b.WriteString(s.Parts[i].Norm)
 		b.WriteByte('\n')
 	}
-	return b.String()
+	s.norm = b.String()
+	return s.norm
 }
 
 // FirstDiff names the first region whose exact content differs between two snapshots
@@ -94,12 +106,13 @@ func FirstDiff(a, b *Snap) (name, path string) {
 
 // Cell is one writable location.
 type Cell struct {
-	Path   string
-	Name   string // name of the region that holds the cell
-	Part   int    // index of the holding part (pre-merge)
-	Ref    bool   // slice header / pointer / interface / map entry
-	Safe   int    // >0: a persistent change here keeps the record packable (1 = octet, 2 = uint16 list, 3 = text)
-	Mutate func() (revert func())
+	Path    string
+	Name    string // name of the region that holds the cell
+	Part    int    // index of the holding region (Snap.Regions)
+	RawPart int    // index of the holding part (Snap.Parts)
+	Ref     bool   // slice header / pointer / interface / map entry
+	Safe    int    // >0: a persistent change here keeps the record packable (1 = octet, 2 = uint16 list, 3 = text)
+	Mutate  func() (revert func())
 }
 
 type walker struct {
@@ -111,6 +124,28 @@ type walker struct {
 	safe    int // class of the slice element being rendered (see Cell.Safe)
 }
 
+// pth is a path built lazily: most paths are never printed.
+type pth struct {
+	up  *pth
+	seg string
+	idx int // >= 0: "[idx]" follows seg
+}
+
+func (p *pth) String() string {
+	if p == nil {
+		return ""
+	}
+	if p.idx >= 0 {
+		return p.up.String() + p.seg + "[" + strconv.Itoa(p.idx) + "]"
+	}
+	return p.up.String() + p.seg
+}
+
+func (p *pth) add(seg string) *pth       { return &pth{p, seg, -1} }
+func (p *pth) at(seg string, i int) *pth { return &pth{p, seg, i} }
+
+var lnames = map[string]string{}
+
 type seenKey struct {
 	lo uintptr
 	t  reflect.Type
@@ -119,7 +154,12 @@ type seenKey struct {
 var hdrType = reflect.TypeOf(dns.RR_Header{})
 
 func lname(s string) string {
-	return strings.ToLower(strings.ReplaceAll(s, "_", "-"))
+	if v, ok := lnames[s]; ok {
+		return v
+	}
+	v := strings.ToLower(strings.ReplaceAll(s, "_", "-"))
+	lnames[s] = v
+	return v
 }
 
 func join(owner, fld string) string {
@@ -146,6 +186,7 @@ func WalkCells(root interface{}) (*Snap, []Cell) {
 	w.root(root)
 	s, m := w.snapMap()
 	for i := range w.cells {
+		w.cells[i].RawPart = w.cells[i].Part
 		w.cells[i].Part = m[w.cells[i].Part]
 	}
 	return s, w.cells
@@ -154,7 +195,7 @@ func WalkCells(root interface{}) (*Snap, []Cell) {
 func (w *walker) root(root interface{}) {
 	v := reflect.ValueOf(root)
 	var ex, no strings.Builder
-	w.value(v, "", "", "", &ex, &no, -1)
+	w.value(v, nil, "", "", &ex, &no, -1)
 }
 
 func (w *walker) snap() *Snap { s, _ := w.snapMap(); return s }
@@ -200,7 +241,7 @@ func (w *walker) snapMap() (*Snap, []int) {
 			}
 		}
 	}
-	s := &Snap{Bk: w.bk.String()}
+	s := &Snap{Bk: w.bk.String(), Parts: w.parts}
 	m := make([]int, n)
 	at := map[int]int{}
 	for i := 0; i < n; i++ {
@@ -236,7 +277,7 @@ func settable(v reflect.Value) reflect.Value {
 	return v
 }
 
-func (w *walker) addCell(v reflect.Value, path, name string, part int, ref bool, safe int) {
+func (w *walker) addCell(v reflect.Value, pp *pth, name string, part int, ref bool, safe int) {
 	if !w.doCells || !v.CanAddr() || part < 0 {
 		return
 	}
@@ -244,7 +285,7 @@ func (w *walker) addCell(v reflect.Value, path, name string, part int, ref bool,
 	if !v.CanSet() {
 		return
 	}
-	w.cells = append(w.cells, Cell{Path: path, Name: name, Part: part, Ref: ref, Safe: safe, Mutate: func() func() {
+	w.cells = append(w.cells, Cell{Path: pp.String(), Name: name, Part: part, Ref: ref, Safe: safe, Mutate: func() func() {
 		old := reflect.New(v.Type()).Elem()
 		old.Set(v)
 		switch v.Kind() {
@@ -275,7 +316,7 @@ func (w *walker) addCell(v reflect.Value, path, name string, part int, ref bool,
 
 // value renders v into the content of the current part (ex/no) and opens new parts
 // for the stores v refers to.  owner/fld give the type-level name of v.
-func (w *walker) value(v reflect.Value, path, owner, fld string, ex, no *strings.Builder, part int) {
+func (w *walker) value(v reflect.Value, path *pth, owner, fld string, ex, no *strings.Builder, part int) {
 	name := join(owner, fld)
 	switch v.Kind() {
 	case reflect.Bool, reflect.Int, reflect.Int8, reflect.Int16, reflect.Int32, reflect.Int64,
@@ -294,7 +335,7 @@ func (w *walker) value(v reflect.Value, path, owner, fld string, ex, no *strings
 		ex.WriteByte('[')
 		no.WriteByte('[')
 		for i := 0; i < v.Len(); i++ {
-			w.value(v.Index(i), path+"["+strconv.Itoa(i)+"]", owner, fld, ex, no, part)
+			w.value(v.Index(i), path.at("", i), owner, fld, ex, no, part)
 			ex.WriteByte(',')
 			no.WriteByte(',')
 		}
@@ -323,7 +364,7 @@ func (w *walker) value(v reflect.Value, path, owner, fld string, ex, no *strings
 			if !f.Anonymous {
 				ff = join(f2, lname(f.Name))
 			}
-			w.value(v.Field(i), path+"."+f.Name, o2, ff, ex, no, part)
+			w.value(v.Field(i), path.add("."+f.Name), o2, ff, ex, no, part)
 			ex.WriteByte(' ')
 			no.WriteByte(' ')
 		}
@@ -345,7 +386,7 @@ func (w *walker) value(v reflect.Value, path, owner, fld string, ex, no *strings
 		lo := v.Pointer()
 		hi := lo + uintptr(v.Cap())*esz
 		me := len(w.parts)
-		w.parts = append(w.parts, Part{Path: path + "[]", Name: name, Kind: "slice", Lo: lo, Hi: hi})
+		w.parts = append(w.parts, Part{Path: path.String() + "[]", Name: name, Kind: "slice", Lo: lo, Hi: hi, HiLen: lo + uintptr(v.Len())*esz})
 		var e2, n2 strings.Builder
 		eo, ef := owner, join(fld, "elem")
 		if et := v.Type().Elem(); et.Kind() == reflect.Struct && et.Name() != "" {
@@ -366,7 +407,7 @@ func (w *walker) value(v reflect.Value, path, owner, fld string, ex, no *strings
 			case reflect.String:
 				w.safe = 3
 			}
-			w.value(v.Index(i), path+"["+strconv.Itoa(i)+"]", eo, ef, &e2, &n2, me)
+			w.value(v.Index(i), path.at("", i), eo, ef, &e2, &n2, me)
 			e2.WriteByte(',')
 			n2.WriteByte(',')
 		}
@@ -399,8 +440,8 @@ func (w *walker) value(v reflect.Value, path, owner, fld string, ex, no *strings
 			if pn == "" {
 				pn = join(name, "pointee")
 			}
-			w.parts = append(w.parts, Part{Path: path + "*", Name: pn, Kind: "ptr", Lo: lo, Hi: lo + sz})
-			w.value(v.Elem(), path+"*", "", "", &e2, &n2, me)
+			w.parts = append(w.parts, Part{Path: path.String() + "*", Name: pn, Kind: "ptr", Lo: lo, Hi: lo + sz, HiLen: lo + sz})
+			w.value(v.Elem(), path.add("*"), "", "", &e2, &n2, me)
 			w.parts[me].Exact = e2.String()
 			w.parts[me].Norm = n2.String()
 		}
@@ -414,7 +455,7 @@ func (w *walker) value(v reflect.Value, path, owner, fld string, ex, no *strings
 		d := v.Elem()
 		ex.WriteString("(" + d.Type().String() + ")")
 		no.WriteString("(" + d.Type().String() + ")")
-		w.value(d, path+".("+d.Type().String()+")", owner, fld, ex, no, part)
+		w.value(d, path.add(".("+d.Type().String()+")"), owner, fld, ex, no, part)
 	case reflect.Map:
 		if v.IsNil() {
 			ex.WriteString("nil-map")
@@ -431,7 +472,7 @@ func (w *walker) value(v reflect.Value, path, owner, fld string, ex, no *strings
 		}
 		me := len(w.parts)
 		w.seen[k] = me
-		w.parts = append(w.parts, Part{Path: path + "{}", Name: name, Kind: "map", Lo: lo, Hi: lo + 8})
+		w.parts = append(w.parts, Part{Path: path.String() + "{}", Name: name, Kind: "map", Lo: lo, Hi: lo + 8, HiLen: lo + 8})
 		type kv struct {
 			k   string
 			v   reflect.Value
@@ -447,12 +488,12 @@ func (w *walker) value(v reflect.Value, path, owner, fld string, ex, no *strings
 		for _, e := range ents {
 			e2.WriteString(e.k + "=>")
 			n2.WriteString(e.k + "=>")
-			w.value(e.v, path+"{"+e.k+"}", owner, join(fld, "value"), &e2, &n2, me)
+			w.value(e.v, path.add("{"+e.k+"}"), owner, join(fld, "value"), &e2, &n2, me)
 			e2.WriteByte(',')
 			n2.WriteByte(',')
 			if w.doCells {
 				mv, key, val := v, e.key, e.v
-				w.cells = append(w.cells, Cell{Path: path + "{" + e.k + "}", Name: name, Part: me, Ref: true, Mutate: func() func() {
+				w.cells = append(w.cells, Cell{Path: path.String() + "{" + e.k + "}", Name: name, Part: me, Ref: true, Mutate: func() func() {
 					mv.SetMapIndex(key, reflect.Value{})
 					return func() { mv.SetMapIndex(key, val) }
 				}})
@@ -496,72 +537,61 @@ func (w *walker) partName(part int) string {
 
 // header renders an RR_Header: RDLENGTH, and for OPT the extended-RCODE octet of the
 // TTL, are documented bookkeeping and go to Bk.
-func (w *walker) header(v reflect.Value, path string, ex, no *strings.Builder, part int) {
+func (w *walker) header(v reflect.Value, pp *pth, ex, no *strings.Builder, part int) {
+	path := pp.String()
 	h := v.Interface().(dns.RR_Header)
 	ttl := h.Ttl
-	fmt.Fprintf(&w.bk, "%s.Rdlength=%d;", path, h.Rdlength)
+	w.bk.WriteString(path + ".Rdlength=" + strconv.Itoa(int(h.Rdlength)) + ";")
 	if h.Rrtype == dns.TypeOPT {
-		fmt.Fprintf(&w.bk, "%s.extrcode=%d;", path, ttl>>24)
+		w.bk.WriteString(path + ".extrcode=" + strconv.Itoa(int(ttl>>24)) + ";")
 		ttl &= 0x00FFFFFF
 	}
-	s := fmt.Sprintf("{Name:%q Rrtype:%d Class:%d Ttl:%d}", h.Name, h.Rrtype, h.Class, ttl)
+	s := "{Name:" + strconv.Quote(h.Name) + " Rrtype:" + strconv.Itoa(int(h.Rrtype)) + " Class:" + strconv.Itoa(int(h.Class)) + " Ttl:" + strconv.FormatUint(uint64(ttl), 10) + "}"
 	ex.WriteString(s)
 	no.WriteString(s)
 	if w.doCells && v.CanAddr() {
 		pn := w.partName(part)
-		w.addCell(v.FieldByName("Name"), path+".Name", pn, part, false, 0)
-		w.addCell(v.FieldByName("Rrtype"), path+".Rrtype", pn, part, false, 0)
-		w.addCell(v.FieldByName("Class"), path+".Class", pn, part, false, 0)
-		w.addCell(v.FieldByName("Ttl"), path+".Ttl", pn, part, false, 0)
+		w.addCell(v.FieldByName("Name"), pp.add(".Name"), pn, part, false, 0)
+		w.addCell(v.FieldByName("Rrtype"), pp.add(".Rrtype"), pn, part, false, 0)
+		w.addCell(v.FieldByName("Class"), pp.add(".Class"), pn, part, false, 0)
+		w.addCell(v.FieldByName("Ttl"), pp.add(".Ttl"), pn, part, false, 0)
 	}
 }
 
-// Overlap reports the first pair of overlapping regions of two snapshots.
-func Overlap(a, b *Snap) (ia, ib int, ok bool) {
+// Overlap reports every pair (region of a, region of b) that overlaps.
+func Overlap(a, b *Snap) (pairs [][2]int) {
 	type iv struct {
 		lo, hi uintptr
-		who, i int
+		i      int
 	}
-	all := make([]iv, 0, len(a.Regions)+len(b.Regions))
-	for i, r := range a.Regions {
-		all = append(all, iv{r.Lo, r.Hi, 0, i})
-	}
+	bs := make([]iv, 0, len(b.Regions))
 	for i, r := range b.Regions {
-		all = append(all, iv{r.Lo, r.Hi, 1, i})
+		bs = append(bs, iv{r.Lo, r.Hi, i})
 	}
-	sort.Slice(all, func(x, y int) bool { return all[x].lo < all[y].lo })
-	// running maximum end per side
-	var hi [2]uintptr
-	var at [2]int
-	for _, v := range all {
-		o := 1 - v.who
-		if v.lo < hi[o] {
-			if v.who == 0 {
-				return v.i, at[o], true
-			}
-			return at[o], v.i, true
-		}
-		if v.hi > hi[v.who] {
-			hi[v.who] = v.hi
-			at[v.who] = v.i
+	sort.Slice(bs, func(x, y int) bool { return bs[x].lo < bs[y].lo })
+	for i, r := range a.Regions {
+		// regions of one object are pairwise disjoint after merging, so bs is sorted by hi as well
+		k := sort.Search(len(bs), func(k int) bool { return bs[k].hi > r.Lo })
+		for ; k < len(bs) && bs[k].lo < r.Hi; k++ {
+			pairs = append(pairs, [2]int{i, bs[k].i})
 		}
 	}
-	return 0, 0, false
+	return pairs
 }
 
-// OverlapBuf reports the first region of s that overlaps the octets of buf (full capacity).
-func OverlapBuf(s *Snap, buf []byte) (int, bool) {
+// OverlapBuf reports the regions of s that overlap the octets of buf (full capacity).
+func OverlapBuf(s *Snap, buf []byte) (hits []int) {
 	if cap(buf) == 0 {
-		return 0, false
+		return nil
 	}
 	lo := uintptr(unsafe.Pointer(unsafe.SliceData(buf)))
 	hi := lo + uintptr(cap(buf))
 	for i, r := range s.Regions {
 		if r.Lo < hi && lo < r.Hi {
-			return i, true
+			hits = append(hits, i)
 		}
 	}
-	return 0, false
+	return hits
 }
 
 // BufInterval is the address interval of a buffer's backing array.
